@@ -390,16 +390,9 @@ class RealAdapter:
         async def idle():
             while self.loop.time() < end:
                 await _real_asyncio.sleep(self.SLOT / 2)
-        try:
-            self.loop.run_until_complete(idle())
-        finally:
-            for t in self.tasks:
-                if not t.done():
-                    t.cancel()
-            try:
-                self.loop.run_until_complete(_real_asyncio.sleep(0))
-            except Exception:
-                pass
+        # pending tasks (connections that stay open) are left alone: the harness
+        # inspects the state after this call, exactly as on the model loop
+        self.loop.run_until_complete(idle())
 
 
 class _ScaledAsyncio:
